@@ -580,7 +580,19 @@ func main() {
 		// B: permuted construction order, fresh ids
 		idTies := idKeyedTies(sp)
 		if idTies {
+			// id-keyed ties on a model built twice: the order of same-named attributes / receivers
+			// follows the random entity ids (build_order_ids_refuted); reported under one signature
+			// of its own (an open known finding), never mixed with the other rebuild failures
 			kinds["id-keyed-ties"]++
+			b1 := build(sp, &rng{s: seed ^ uint64(i*31+1)})
+			if len(b1.Errs) == 0 {
+				o1 := export(b1.Net)
+				evals++
+				if s, d := diff(o0, o1, true); s != "" {
+					kinds["id-keyed-ties-rebuild-differs"]++
+					fail("rebuild-id-keyed-ties", size, i, fmt.Sprintf("two builds of a specification with same-named attributes on one entity / same-named receivers export differently (%s): %s", s, d))
+				}
+			}
 		} else {
 			for k := 0; k < 2; k++ {
 				b1 := build(sp, &rng{s: seed ^ uint64(i*31+k+1)})
